@@ -12,6 +12,7 @@ import SamVerif.Drive.C19
 import SamVerif.Drive.C14
 import SamVerif.Drive.C15
 import SamVerif.Drive.C06
+import SamVerif.Drive.C05
 open SamVerif.Drive
 
 def dispatch (line : String) : String :=
@@ -26,6 +27,7 @@ def dispatch (line : String) : String :=
     else if k.startsWith "c14." then C14.handle k args impl
     else if k.startsWith "c15." then C15.handle k args impl
     else if k.startsWith "c06." then C06.handle k args impl
+    else if k.startsWith "c05." then C05.handle k args impl
     else "bad-op"
   | _ => "bad-op"
 
